@@ -30,7 +30,7 @@ INLINE_PROPS = ["CsvPath.raise_validation_errors", "CsvPath.print_validation_err
 NATIVE = {"patches": {**shared.CSVPATH_PRINT_PATCH}, "construct": ["Error"]}
 
 
-def contracts():
+def error_contracts():
     cs = []
     common = dict(class_fields=CLASS_FIELDS, macros=MACROS)
     # ---------------------------------------------------------------- ErrorCommsManager.do_i_*
@@ -105,10 +105,14 @@ def contracts():
         assumptions=["the ErrorCommsManager's policy snapshot equals the policy passed in (both come from config.csvpath_errors_policy)",
                      "the handler's _csvpath and its ErrorCommsManager's _csvpath are treated as separate objects: _handle_if writes nothing the manager reads (frame-checked)"],
         **common))
+    return cs
+
+
+def contracts():
     # every trapped error reaches the handler whatever ends the line (Matcher.matches), and every exception below an expression is trapped (Expression.matches)
     from . import core, control
     extra = core.select(core.contracts(), ("Matcher.matches",))
-    return cs + extra + control.expression_matches() + control.interfaces()
+    return error_contracts() + extra + control.expression_matches() + control.interfaces()
 
 
 LEVEL = "proof"
